@@ -33,6 +33,10 @@ SameReads(a, b) == /\ Len(a) = Len(b)
 SameEqs(a, b) == /\ NamesOf(a) = NamesOf(b)
                  /\ SameReads([i \in DOMAIN a |-> a[i].reads], [i \in DOMAIN b |-> b[i].reads])
 
+SameExos(a, b) == /\ Len(a) = Len(b)
+                  /\ \A i \in DOMAIN a : /\ a[i].name = b[i].name /\ a[i].len = b[i].len
+                                         /\ Range(a[i].reads) = Range(b[i].reads)
+
 ObsLen(lens, nm) ==
     IF \E i \in DOMAIN lens : lens[i].name = nm
     THEN (lens[CHOOSE i \in DOMAIN lens : lens[i].name = nm]).len ELSE 0
@@ -41,7 +45,7 @@ JudgeParse(e) ==
     IF ~Accepts(e.block) THEN Drift("own_name_accepted")     \* the module is judged like any other
     ELSE IF \/ ~SameEqs(e.endo, parser'.endo)
             \/ e.lagged # parser'.lagged
-            \/ e.exos # parser'.exos
+            \/ ~SameExos(e.exos, parser'.exos)
             \/ Range(e.ics) # Range(parser'.ics)
             \/ e.maxTime # parser'.maxTime
          THEN Drift("parse_lists")
@@ -57,10 +61,12 @@ JudgeGenEq(e) ==
     ELSE Ok
 
 ObsClosed(e) ==
-    \A i \in DOMAIN e.iterReads : Range(e.iterReads[i]) \subseteq (Range(e.iterUnpack) \cup MathNames)
+    /\ \A i \in DOMAIN e.iterReads : Range(e.iterReads[i]) \subseteq (Range(e.iterUnpack) \cup Range(e.globals))
+    /\ \A i \in DOMAIN e.declReads : Range(e.declReads[i]) \subseteq Range(e.globals)
 
 JudgeFile(e) ==
     IF ~e.ok THEN Prop("C20_ImportAndRun")
+    ELSE IF ~(SolverNames \subseteq Range(e.globals)) THEN Drift("C20_ResolvesSolverNames")
     ELSE IF ~ObsClosed(e) THEN Drift("C20_Closed")
     ELSE IF ~(e.loopAfterPack \/ Range(NamesOf(e.pack)) \cap LoopNames = {}) THEN Drift("C20_LoopStateOwn")
     ELSE IF Range(NamesOf(e.pack)) \cap ModuleOwnNames # {} \/ NewCollision(Range(NamesOf(e.pack)))
@@ -73,6 +79,8 @@ JudgeFile(e) ==
             \/ ~SameReads(e.iterReads, file'.iterReads)
             \/ e.unpack # file'.unpack
             \/ e.loopAfterPack # file'.loopAfterPack
+            \/ Range(e.globals) # file'.globals
+            \/ ~SameReads(e.declReads, file'.declReads)
             \/ e.varList # file'.varList
          THEN Drift("file_sections")
     ELSE Ok
